@@ -106,8 +106,8 @@ def run_task(spec):
                        pre_sat=res.pre_sat, solver_time=round(res.solver_time, 3))
             for ob in res.obligations:
                 d = ob_to_dict(ob, res, kw, tier)
-                if ob.status == 'refuted' and ob.model is not None and ob.kind not in ('inv', 'pre'):
-                    d['replay'] = replay_model(name, kw.get('self_class'), res, ob)
+                if getattr(ob, 'replay', None) is not None:
+                    d['replay'] = ob.replay
                 if ob.status != 'discharged':
                     d['smt_excerpt'] = str(ob.goal)[:600]
                 out['obligations'].append(d)
@@ -202,7 +202,7 @@ def run_pool(specs, jobs, wall_limit):
         while pending and len(running) < jobs:
             i, sp = pending.pop(0)
             parent, child = ctx.Pipe(duplex=False)
-            p = ctx.Process(target=_child, args=(sp, child), daemon=True)
+            p = ctx.Process(target=_child, args=(sp, child), daemon=False)
             p.start()
             child.close()
             running[i] = (p, parent, time.time())
